@@ -26,7 +26,7 @@ def gen_schedule(rng):
     p = 0.0 if gran == "task" else rng.choice([0.01, 0.05, 0.2])
     return {"mode": "prng", "seed": rng.randrange(1 << 40), "workers": rng.choice([1, 2, 3, 4, 8, 16]), "granularity": gran,
             "preempt_p": p, "policy": rng.choice(list(POLICIES)), "pct_d": rng.randint(1, 3), "hot_boost": rng.choice([0.0, 0.3]),
-            "faults": {"F7": 0.1} if rng.random() < 0.3 else {}}
+            "faults": rng.choice([{}, {}, {}, {"F7": 0.1}, {"F10": 0.5}, {"F7": 0.1, "F10": 0.3}])}
 
 
 def gen_onehot_world(rng):
